@@ -252,6 +252,7 @@ bool covered(T requested, bool all, const Item &i)
 struct World
 {
     ModelPtr model;
+    ModelPtr alt; // a second model object with the same content and ids (the same document loaded twice)
     AnnotatorPtr annotator;
     bool annotatorHasModel = false;
     bool modelDropped = false;
@@ -384,10 +385,12 @@ Plan generate(Rng &rng, const Opts &opts, uint64_t)
             p.steps.push_back(mk(0, "ASSIGN_TYPE", {long(rng.below(NKINDS + 2))}));
         } else if (r < 88) {
             p.steps.push_back(mk(0, "ASSIGN_ITEM", {long(rng.below(NKINDS)), long(rng.below(16)), long(rng.below(3))}));
-        } else if (r < 92) {
+        } else if (r < 90) {
             p.steps.push_back(mk(0, "CLEAR", {long(rng.below(2))}));
-        } else if (r < 96) {
+        } else if (r < 95) {
             p.steps.push_back(mk(0, "PRINT_AUTO"));
+        } else if (r < 98) {
+            p.steps.push_back(mk(0, "SWAPMODEL", {long(rng.below(1000))}));
         } else {
             p.steps.push_back(mk(0, "SETMODEL"));
         }
@@ -650,6 +653,10 @@ void execute(const Plan &plan, Ctx &ctx)
     go.maxComps = plan.c("maxcomps", 4);
     go.consistentConnections = plan.c("connmode", 1) != 0;
     w.model = genModel(mr, go);
+    {
+        Rng mr2(mixSeed(uint64_t(plan.c("modelseed", 1)), "annot-model", 0));
+        w.alt = genModel(mr2, go);
+    }
     w.annotator = Annotator::create();
     for (auto &i : collect(w.model)) {
         noteAuto(w, i.id);
@@ -866,6 +873,24 @@ void execute(const Plan &plan, Ctx &ctx)
             }
             continue;
         }
+        if (s.op == "SWAPMODEL") {
+            // the annotator is handed another model object (which may have exactly the same ids)
+            if (w.alt == nullptr) {
+                continue;
+            }
+            std::swap(w.model, w.alt);
+            w.annotator->setModel(w.model);
+            w.annotatorHasModel = true;
+            w.editsSinceRefresh = 0;
+            w.idEditsSinceRefresh = 0;
+            checkLogger(ctx, w.annotator, "annotator", "setModel", false);
+            ctx.count("fault_annotator_given_another_model_object");
+            ctx.ev("SWAPMODEL");
+            if (!checkLookups(ctx, w, s.arg(0))) {
+                return;
+            }
+            continue;
+        }
         if (s.op == "SETMODEL") {
             w.annotator->setModel(w.model);
             w.annotatorHasModel = true;
@@ -1023,9 +1048,16 @@ void execute(const Plan &plan, Ctx &ctx)
                     inText.insert(text.substr(pos, e - pos));
                     pos = e;
                 }
+                // every id written more often than the model carries it is a new one: it must be new to the model and written once
                 std::multiset<std::string> fresh;
-                for (auto &x : inText) {
-                    if (present.count(x) == 0) {
+                std::set<std::string> distinctInText(inText.begin(), inText.end());
+                for (auto &x : distinctInText) {
+                    size_t extra = inText.count(x) > present.count(x) ? inText.count(x) - present.count(x) : 0;
+                    if (extra > 0 && present.count(x) > 0) {
+                        ctx.violate("C13", "print-autoids-reused-existing-id", "", "printModel(model, true) wrote the id '" + x + "' " + str(inText.count(x)) + " times, the model carries it " + str(present.count(x)) + " time(s): a generated id repeats an id of the model");
+                        return;
+                    }
+                    for (size_t k = 0; k < extra; ++k) {
                         fresh.insert(x);
                     }
                 }
